@@ -54,3 +54,6 @@ LEVEL_TEXT = ("All clauses are kernel-checked theorems for strings of every leng
               "(exhaustive to length 5 / 3 mixed case / 4 for expansion in the thorough tier, random to 10^4), including output order.")
 LEVEL_NOTE = ("Trusted: Lean kernel; extractor and correspondence harness; the IUPAC code-set spec typed by hand; "
               "Go's strings.Map / range / ToUpper modelled on ASCII only.")
+
+HARNESS_BIN = "run-seq"
+EXTRACT_BINS = ["extract-seq"]
